@@ -1,5 +1,6 @@
 mod common;
 mod corpus;
+mod deep;
 mod dets;
 mod dtree;
 mod gast;
